@@ -74,6 +74,45 @@ def _cb_exception(name: str) -> BaseException:
     return table[name]("callback failed") if name not in ("anyio.EndOfStream", "anyio.ClosedResourceError", "anyio.WouldBlock") else table[name]()
 
 
+CB_FORMS = ["async-def", "object-with-async-call", "lambda-forwarding", "functools.partial", "plain-def-decorator",
+            "bound-async-method", "AsyncMock"]
+
+
+def _cb_in_form(cb, form: str):
+    """The same callback handed over as each kind of awaitable-returning callable an application may use."""
+    import functools
+
+    if form == "async-def":
+        return cb
+    if form == "object-with-async-call":
+        class _Obj:
+            async def __call__(self, progress, total, message):
+                return await cb(progress, total, message)
+        return _Obj()
+    if form == "lambda-forwarding":
+        return lambda p, t, m: cb(p, t, m)
+    if form == "functools.partial":
+        async def with_extra(tag, progress, total, message):
+            return await cb(progress, total, message)
+        return functools.partial(with_extra, "tag")
+    if form == "plain-def-decorator":
+        def deco(f):
+            @functools.wraps(f)
+            def wrapper(*a, **k):
+                return f(*a, **k)
+            return wrapper
+        return deco(cb)
+    if form == "bound-async-method":
+        class _Holder:
+            async def on_progress(self, progress, total, message):
+                return await cb(progress, total, message)
+        return _Holder().on_progress
+    if form == "AsyncMock":
+        from unittest.mock import AsyncMock
+        return AsyncMock(side_effect=cb)
+    raise KeyError(form)
+
+
 def run_one(ctl: explorer.Ctl, cfg: Dict[str, Any]) -> Dict[str, Any]:
     from chuk_mcp.protocol.messages.json_rpc_message import parse_message
     from chuk_mcp.protocol.messages.send_message import (CancellationToken, CancelledError, send_message)
@@ -203,7 +242,7 @@ def run_one(ctl: explorer.Ctl, cfg: Dict[str, Any]) -> Dict[str, Any]:
             if token is not None:
                 kw["cancellation_token"] = token
             if use_cb:
-                kw["progress_callback"] = cb
+                kw["progress_callback"] = _cb_in_form(cb, cfg.get("cb_form", "async-def"))
             try:
                 pm = cfg.get("params_meta")
                 call_params: Dict[str, Any] = {"name": "t"}
@@ -584,6 +623,21 @@ def configs_for(tier: str):
                     cfg.update(response=None, cancel=None)
                 g.append(cfg)
     parts["progress-callback-exception-classes"] = g
+    # (2c) the callback handed over as each kind of awaitable-returning callable
+    g = []
+    for form in CB_FORMS:
+        for ra in (None, 1):
+            for end in ("response", "timeout", "cancel"):
+                cfg = {"T": 1.2, "traffic": "none", "progress": [["M", 0.1], ["F", 0.2], ["M", 0.3], ["M0", 0.6]], "cb": True,
+                       "cb_raise_at": ra, "cb_form": form}
+                if end == "response":
+                    cfg.update(response=[0.8, 0], cancel=None)
+                elif end == "cancel":
+                    cfg.update(response=None, cancel=[0.7, 0])
+                else:
+                    cfg.update(response=None, cancel=None)
+                g.append(cfg)
+    parts["progress-callback-forms"] = g
     # (1b) long timeouts: the polling interval (and so the cancel latency) must not grow with the timeout
     g = []
     for T in (30.0, 60.0, 61.0, 120.0, 480.0, 3600.0):
